@@ -27,6 +27,9 @@ sys.setrecursionlimit(20000)
 
 
 ALWAYS = ("ANCHOR", "FLOOR", "ENGINE", "BUILD", "SHAPE", "SPECIMEN")
+# properties whose generator logic is also decided end-to-end by a generated-program corpus (r_corpus.py)
+CORPUS_BACKED = {"C05": ("C05-R8",), "C15": ("C15-R8",), "C16": ("C16-R6", "C16-R7")}
+MACRO_RULE_IDS = {"C05": ("C05-R1", "C05-R2", "C05-R3", "C05-R4"), "C15": ("C15-R1", "C15-R2", "C15-R3", "C15-R4"), "C16": ("C16-R1", "C16-R3", "C16-R5")}
 
 
 def blame_specimen(err):
@@ -67,9 +70,10 @@ def pack(R, spec, wall):
         return rule in own or rule in ALWAYS
     return {
         "counts": {k: v for k, v in R.counts.items() if mine(k)},
-        "violations": [{"rule": v.rule, "key": v.key, "detail": v.detail, "where": v.where, "config": v.config} for v in R.violations
+        "violations": [{"rule": v.rule, "key": v.key, "detail": v.detail, "where": v.where, "config": v.config, "origin": getattr(v, "origin", None)} for v in R.violations
                        if mine(v.rule) and not (v.rule == "FLOOR" and v.key not in own)],
         "samples": [s for s in R.samples.values() if mine(s["rule"])],
+        "okfams": sorted({"%s|%s" % (r, family(k)) for (r, k) in getattr(R, "okkeys", ()) if mine(r)}),
         "notes": R.notes,
         "nontrivial": len([1 for (r, k) in R.nontrivial if mine(r)]),
         "functions": len(R.functions),
@@ -108,10 +112,13 @@ def analyse_config(args):
             if ctx.spec is None and (fn.__module__.endswith("r_spec") or getattr(fn, "needs_spec", False)):
                 R.note("rule %s skipped: the specimen does not build (attributed to %s)" % (fn.__name__, ",".join(spec_blame[0])))
                 continue
+            n_before = len(R.violations)
             try:
                 fn(ctx, R)
             except Exception:
                 R.violations.append(core.Violation("ENGINE", fn.__name__, "rule crashed (fail closed):\n" + traceback.format_exc()[-1500:], None, cfg.name))
+            for v in R.violations[n_before:]:
+                v.origin = fn.__module__.split(".")[-1] + "." + fn.__name__
         for rule, floor in spec.get("floors", {}).items():
             fl = floor(ctx) if callable(floor) else floor
             if fl is not None and not (ctx.spec is None and R.counts.get(rule, 0) == 0):
@@ -321,10 +328,13 @@ def evaluate(pid, res, tier, seed, a, t0, quiet=False):
                         continue
                     per.setdefault((q, v["rule"], family(v["key"])), {"cfgs": set(), "v": v})["cfgs"].add(c["config"])
         n4 = 0
+        okfam_sets = {}
         for (q, rule, fk), info in sorted(per.items()):
             n4 += 1
-            # only configurations in which this rule judges anything count as "holds there"
-            applicable = {c["config"] for c in okc if c["props"].get(q, {}).get("counts", {}).get(rule, 0) > 0}
+            # only configurations in which this very rule instance was judged and held count as "holds there"
+            # (an instance that exists only with a feature -- an event push -- is not configuration dependent)
+            ident_ = "%s|%s" % (rule, fk)
+            applicable = {c["config"] for c in okc if ident_ in okfam_sets.setdefault((c["config"], q), set(c["props"].get(q, {}).get("okfams", ())))}
             holds_in = applicable - info["cfgs"]
             if holds_in:
                 v = info["v"]
@@ -350,6 +360,34 @@ def evaluate(pid, res, tier, seed, a, t0, quiet=False):
                             n_ = "info: rule %s judges %d instances in %s and %d in %s (debug-only checks add sites; not a violation)" % (r_, ca.get(r_, 0), a_["config"], cb.get(r_, 0), b_["config"])
                             if n_ not in notes:
                                 notes.append(n_)
+    # Corpus-backed properties: the structural rules on the proc-macro crate's own functions (r_macros) recognise
+    # particular code shapes. When such a rule does not hold but the generated-program corpus of the same property
+    # (decided by rustc on programs built with the current macros) ran in full and found no behavioural difference,
+    # the structural finding is recorded as a note, not as a violation: a behaviour-preserving refactoring of the
+    # generator must not raise an alarm, and a behaviour-changing one is what the corpus exists to decide.
+    if pid in CORPUS_BACKED:
+        crules = CORPUS_BACKED[pid]
+        spec_floors = registry.PROPS[pid].get("static_floors", {})
+        corpus_ran = all(counts.get(r, 0) >= spec_floors.get(r, 1) for r in crules)
+        corpus_clean = corpus_ran and not any(v["rule"] in crules or (v["rule"] in ("FLOOR", "ENGINE", "BUILD") and (v["key"] in crules or "corpus" in v["key"] or "witness" in v["key"])) for v in viols)
+        if corpus_clean:
+            keep = []
+            demoted = {}
+            for v in viols:
+                o = v.get("origin") or ""
+                structural = o.startswith("r_macros.") and o not in ("r_macros.rule_param_parser",)
+                if v["rule"] == "FLOOR" and v["key"] in MACRO_RULE_IDS.get(pid, ()):
+                    structural = True
+                if structural:
+                    demoted.setdefault("%s|%s" % (v["rule"], v["key"]), v)
+                else:
+                    keep.append(v)
+            for k_, v in sorted(demoted.items()):
+                n_ = "unconfirmed structural finding (not reported): %s -- %s. The generated-program corpus (%s: %s programs) finds no behavioural difference on this tree." % (
+                    k_, v["detail"][:200], ",".join(crules), "+".join(str(counts.get(r, 0)) for r in crules))
+                if n_ not in notes:
+                    notes.append(n_)
+            viols = keep
     # de-duplicate violations across configurations by (rule, family key)
     known = load_known()
     uniq = {}
